@@ -783,6 +783,11 @@ class Runner:
         if st != "ok":
             return ("raise", ["%s.raises_%s" % (case.fn, got)], {"raised": got, "model": out})
         self.res.dist("hyp:%s" % hyp)
+        cf = case.cfg(is_case, is_re, fast)
+        if cf["indexed"]:
+            self.res.dist("lookup:indexed" + ("+case_insensitive" if cf["ci"] else ""))
+        elif case.variant == "pipeline":
+            self.res.dist("lookup:linear")
         bad = None
         if got != spec or len(got) != len(set(got)):
             sigs = classify(case, pats, is_case, is_re, fast, got) if filt == "none" else None
